@@ -401,6 +401,14 @@ class Check:
             self.proof_break = {"kind": "property-file-failed", "failed_theorem": rep.get("failed_at"), "log": rep["log"][-3000:]}
         elif rep["bad_axioms"]:
             self.proof_break = {"kind": "axiom-not-allowed", "axioms": rep["bad_axioms"]}
+        if self.proof_break is None and self.tier == "thorough" and os.environ.get("VERIF_NO_COQCHK") != "1":
+            # independent re-check of the compiled closure of the property file (once per thorough run)
+            t1 = time.time()
+            with Lock("coq"):
+                rc2, out2 = sh(["coqchk", "-silent", "-o", "-Q", ".", "ZV", "ZV.Properties." + self.pid], cwd=COQ, timeout=5400)
+            cov["coqchk"] = {"rc": rc2, "wall_s": round(time.time() - t1, 1), "tail": out2[-1500:]}
+            if rc2 != 0:
+                self.proof_break = {"kind": "coqchk-failed", "log": out2[-3000:]}
         if self.proof_break:
             self.log("PROOF BREAK:", json.dumps(self.proof_break)[:600])
         else:
